@@ -45,7 +45,7 @@ def cleanup(d):
     shutil.rmtree(d, ignore_errors=True)
 
 
-def run(module, cfg=None, workers=16, dump=False, env=None, timeout=1800, coverage=False,
+def run(module, cfg=None, workers=16, dump=False, env=None, timeout=600, coverage=False,
         simulate=None, depth=None, seed=None, tag=None, dfs=False, heap='6g', cfg_text=None,
         continue_=False, view_dump=True):
     """Run TLC on specs/<module>.tla with config specs/<cfg> (or literal cfg_text).
